@@ -58,6 +58,9 @@ class Ctx:
 CTX = Ctx()
 
 
+MOD_EXACT = [False]     # harness switch: model `angle % (2 pi k)` exactly (fresh angle, half-angle pair equal up to a free sign)
+
+
 def new_ctx(prefix=''):
     global CTX
     CTX = Ctx()
@@ -469,6 +472,20 @@ class SC(_ScalarLike):
         o = as_sc(o)
         if o is not NotImplemented and o.isconst and o.isreal and self.isreal:
             m = transc.pi_multiple(o.re.val)
+            if m is not None and m != 0 and m.denominator == 1 and m.numerator % 2 == 0 and MOD_EXACT[0]:
+                # exact: r = angle - (2 pi k) n for an integer n, i.e. (cos, sin)(r/2) = sigma (cos, sin)(angle/2) with sigma = +-1
+                # (sigma = 1 when k is even); every quantity of r derived from its half angle follows, finer subdivisions stay unconstrained
+                CTX.nmod = getattr(CTX, 'nmod', 0) + 1
+                r = sc_var(f'mod{CTX.nmod}<' + ir.pretty(self.re, 2).replace(' ', '_') + '>')
+                ch, sh = (self / 2).cos(), (self / 2).sin()
+                cr, sr = (r / 2).cos(), (r / 2).sin()
+                if (m.numerator // 2) % 2 == 0:
+                    CTX.facts += [(cr == ch).n, (sr == sh).n]
+                else:
+                    sg = sc_var(f'modsign{CTX.nmod}')
+                    CTX.facts += [(sg * sg == 1).n, (cr == sg * ch).n, (sr == sg * sh).n]
+                CTX.notes.append('angle % (2 pi k) modelled exactly through the half-angle pair (sign free for odd k)')
+                return r
             if m is not None and m != 0 and m.denominator == 1 and m.numerator % 2 == 0:
                 CTX.notes.append('angle % (2 pi k) is modelled as the same angle (only its cos/sin are used afterwards)')
                 return self
